@@ -335,3 +335,26 @@ benign(
     ["C07"],
     (PLAN, "            for n in all_pipeline_nodes:\n                dag.add_edge(\"arrays\", n)", "            for n in all_pipeline_nodes:\n                dag.add_edge(\"arrays\", n)\n            logger_unused = None"),
 )
+
+# ---------------------------------------------------------------- C09
+STORE_V3 = "cubed/storage/stores/zarr_python_v3.py"
+mutant(
+    "M56r-return-true-inside-scan",
+    ["C09"],
+    "RESUME-ALL-1",
+    (PLAN, "                if target.ndim == 0 or target.nchunks_initialized != target.nchunks:\n                    return False\n", "                if target.ndim == 0 or target.nchunks_initialized != target.nchunks:\n                    return False\n                return True\n"),
+)
+mutant("M57-le-for-ne", ["C09"], "RESUME-ALL-1", (PLAN, "target.nchunks_initialized != target.nchunks:", "target.nchunks_initialized <= target.nchunks:"))
+mutant("M57b-zero-dim-trusted", ["C09"], "RESUME-ALL-1", (PLAN, "if target.ndim == 0 or target.nchunks_initialized != target.nchunks:", "if target.nchunks_initialized != target.nchunks:"))
+mutant("M57c-not-found-is-computed", ["C09"], "RESUME-ALL-1", (PLAN, "            except ArrayNotFoundError:\n                return False", "            except ArrayNotFoundError:\n                continue"))
+mutant("M57d-first-successor-only", ["C09"], "RESUME-ALL-1", (PLAN, "    for output in dag.successors(name):\n        target = nodes[output].get(\"target\", None)\n        if target is not None:", "    for output in list(dag.successors(name))[:1]:\n        target = nodes[output].get(\"target\", None)\n        if target is not None:"))
+mutant("M57e-create-arrays-skipped", ["C09"], "RESUME-ALL-1", (PLAN, "        [nodes[output].get(\"target\", None) is None for output in dag.successors(name)]\n    ):\n        return False", "        [nodes[output].get(\"target\", None) is None for output in dag.successors(name)]\n    ):\n        return True"))
+mutant("M58-mark-without-resume", ["C09"], "RESUME-MARK-1", (PLAN, "        if resume:\n            # mark nodes as computed", "        if True:\n            # mark nodes as computed"))
+mutant("M58b-mark-shared-graph", ["C09", "C10"], "RESUME-MARK-1", (PLAN, "            dag = dag.copy()\n            nodes = {n: d for (n, d) in dag.nodes(data=True)}\n            for name in list(nx.topological_sort(dag)):", "            nodes = {n: d for (n, d) in dag.nodes(data=True)}\n            for name in list(nx.topological_sort(dag)):"), also=("COPY-MUT-1",))
+mutant("M58c-executor-gets-unmarked-graph", ["C09"], "RESUME-MARK-1", (PLAN, "        executor.execute_dag(\n            dag,\n            compute_id=compute_id,", "        executor.execute_dag(\n            self.dag,\n            compute_id=compute_id,"))
+mutant("M46-create-mode-w", ["C09", "C06"], "CREATE-MODE-1", (PLAN, "    lazy_zarr_array.create(mode=\"a\")", "    lazy_zarr_array.create(mode=\"w\")"))
+mutant("M46b-create-default-mode", ["C09", "C06"], "CREATE-MODE-1", (PLAN, "    lazy_zarr_array.create(mode=\"a\")", "    lazy_zarr_array.create()"))
+mutant("M46c-overwrite", ["C09", "C06"], "CREATE-MODE-1", (STORE_V3, "                chunks=chunks,\n                name=path,\n                **kwargs,", "                chunks=chunks,\n                name=path,\n                overwrite=True,\n                **kwargs,"))
+mutant("M46d-no-fallback", ["C09", "C06"], "CREATE-MODE-1", (STORE_V3, "        except zarr.errors.ContainsArrayError as e:\n            if mode == \"a\":\n                return zarr.open_array(store=store, path=path)  # type: ignore[arg-type]\n            raise e", "        except zarr.errors.ContainsArrayError as e:\n            raise e"))
+mutant("M42-write-empty-chunks-false", ["C09"], "ZARR-CONFIG-1", (STORE_V3, "\"array.write_empty_chunks\": True,", "\"array.write_empty_chunks\": False,"))
+benign("B-completeness-eq-style", ["C09"], (PLAN, "                if target.ndim == 0 or target.nchunks_initialized != target.nchunks:\n                    return False", "                if target.ndim == 0:\n                    return False\n                if target.nchunks_initialized == target.nchunks:\n                    continue\n                return False"))
